@@ -61,7 +61,14 @@ def tamper(log, rng, other_ids):
     k = rng.choice(keys)
     ids = L[k]
     kind = rng.choice(["swap", "delete", "duplicate", "reverse", "foreign", "garbage", "stack-op", "empty", "drop-key",
-                       "dup-index", "truncate"])
+                       "dup-index", "truncate", "store-to-pops", "store-to-pops", "drop-store-and-operands"])
+    stores = [i for i, x in enumerate(ids) if "STORE" in x]
+    if kind in ("store-to-pops", "drop-store-and-operands") and not stores:
+        # prefer a block that has a store
+        ks = [q for q in keys if any("STORE" in x for x in L[q])]
+        if ks:
+            k = rng.choice(ks); ids = L[k]
+            stores = [i for i, x in enumerate(ids) if "STORE" in x]
     if kind == "swap" and len(ids) >= 2:
         i, j = rng.sample(range(len(ids)), 2)
         ids[i], ids[j] = ids[j], ids[i]
@@ -91,6 +98,15 @@ def tamper(log, rng, other_ids):
             ids.append("DUP1")
     elif kind == "truncate":
         L[k] = ids[:len(ids) // 2]
+    elif kind == "store-to-pops" and stores:
+        # the write disappears but the stack effect is kept: only a checker that counts every kind of store notices
+        s8 = [j for j in stores if "STORE8" in ids[j]]
+        i = rng.choice(s8 if s8 and rng.random() < 0.6 else stores)
+        ids[i:i + 1] = ["POP", "POP"]
+    elif kind == "drop-store-and-operands" and stores:
+        i = rng.choice(stores)
+        w = rng.randint(1, 3)
+        del ids[max(0, i - w):i + 1]
     else:
         ids.append("POP")
         kind += "->append-pop"
@@ -117,7 +133,8 @@ def check(run):
         inputs += shipped[:2 if quick else 6]
         for k in range(3 if quick else 12):
             p = os.path.join(work, "synth%d.json_solc" % k)
-            docgen.dump(docgen.document(rng.getrandbits(32), nblocks=rng.randint(4, 9), with_noasm=(k % 2 == 0), max_len=16), p)
+            docgen.dump(docgen.document(rng.getrandbits(32), nblocks=rng.randint(4, 9), with_noasm=(k % 2 == 0), max_len=16,
+                                        multi_data=(k % 2 == 0), twin=(k % 3 == 1), failing=(k % 3 == 2)), p)
             inputs.append(p)
         optsets = [["-greedy"], ["-greedy", "-size"]] if quick else [["-greedy"], ["-greedy", "-size"], ["-greedy", "-storage"],
                                                                         ["-greedy", "-partition", "-length"], ["-ub-greedy", "-solver", "z3"]]
